@@ -52,5 +52,9 @@ F4 == <<CF(1, "f1", "V50"), CF(2, "g1", "V401"),
         CN(6, "I-SIGNAL", "j"), CS(14, "SYSTEM-SIGNAL-REF"), SR(16, 7),
         SA(8, "NAME-PATTERN", SVal("x")), SC(7, "cmt"),
         CS(2, "AR-PACKAGES"), CN(17, "AR-PACKAGE", "a")>>
+LD(m, d) == [A0 EXCEPT !.op = "Load", !.m = m, !.k = d, !.name = d]
+\* F5: a model built by loading: pb = packages a (no ELEMENTS) and b
+\*  the root of model 1 is node 3 afterwards (1 = the replaced empty root); 4 AR-PACKAGES, 5 a, 6 SN, 7 b, 8 SN
+F5 == <<LD(1, "pb")>>
 AttrValuesDef == {<<"UUID", SVal("u1")>>, <<"DEST", EVal("SYSTEM-SIGNAL")>>, <<"DEST", EVal("I-SIGNAL")>>, <<"NAME-PATTERN", SVal("x")>>}
 =============================================================================
